@@ -1264,6 +1264,10 @@ def from_jsonable(x):
     return v
 
 
+def _key_str(k):
+    return k if isinstance(k, str) else _short(k)
+
+
 def first_diff(a, b, path=""):
     """path of the first structural difference between two plain structures, or None"""
     if type(a) is not type(b):
@@ -1279,12 +1283,12 @@ def first_diff(a, b, path=""):
     if isinstance(a, dict):
         for k in a:
             if k not in b:
-                return "%s.%s" % (path, k)
+                return "%s.%s" % (path, _key_str(k))
         for k in b:
             if k not in a:
-                return "%s.%s" % (path, k)
+                return "%s.%s" % (path, _key_str(k))
         for k in a:
-            d = first_diff(a[k], b[k], "%s.%s" % (path, k))
+            d = first_diff(a[k], b[k], "%s.%s" % (path, _key_str(k)))
             if d:
                 return d
         return None
